@@ -60,6 +60,12 @@ func runC12(o opts) error {
 		scns = append(scns, c12.GenNeighbours(rng, nnb)...)
 		scns = append(scns, c12.GenBig(rng, o.tier == "thorough")...)
 		scns = append(scns, c12.GenSixel(rng, o.tier == "thorough")...)
+		// characters a typesetting width table gives three or four columns (a terminal gives any glyph at most two)
+		nwg := 40
+		if o.tier == "thorough" {
+			nwg = 2000
+		}
+		scns = append(scns, c12.GenWide(rng, nwg)...)
 	}
 	sink, err := trace.NewSink(o.out, o.shards)
 	if err != nil {
